@@ -89,6 +89,7 @@ Print Assumptions C07_csv_sep_in_name_refuted.
 
 (* ---------------------------------------------------------------- many-valued contexts *)
 
+(* interval end points may be infinite, with either sign on either side: the value +inf is (inf, inf) *)
 Theorem C07_mv_json_roundtrip : forall K,
   mv_admissibleb K = true -> exists v, write_mv_json K = SOk v /\ read_mv_json v = SOk K.
 Proof. exact mv_json_roundtrip. Qed.
@@ -163,13 +164,13 @@ Definition s_m2 : str := [88; 46]%N.             (* "X." *)
 Definition ex_K : sctx := mk_sctx [s_g1; s_g2] [s_m1; s_m2] (Some [100]%N) [[true; false]; [false; false]].
 Definition ex_mv : smv :=
   mk_smv [s_g1; s_g2] [s_m1; s_m2] None [PInterval; PSet]
-         [[CInterval 1024 2048; CSet [1; 3]%Z]; [CInterval (-512) (-512); CSet []]].
+         [[CInterval (FFin 1024) FPosInf; CSet [1; 3]%Z]; [CInterval FNegInf FNegInf; CSet []]].
 Definition ex_c (e : list nat) (i : list nat) : fcv :=
-  mk_fcv e (names_at [s_g1; s_g2] e) i (names_at [s_m1; s_m2] i) [([115]%N, JFlt 512)] (Some 77%Z) false.
+  mk_fcv e (names_at [s_g1; s_g2] e) i (names_at [s_m1; s_m2] i) [([115]%N, JFlt (FFin 512))] (Some 77%Z) false.
 Definition ex_L : latv :=
   mk_latv [FC (ex_c [0; 1] []); FC (ex_c [0] [0]); FC (ex_c [] [0; 1])] [(0, [1]); (1, [2]); (2, [])] 0 2.
 Definition ex_p : pcv :=
-  mk_pcv [0] [s_g1] [CInterval 1024 2048; CSet [1; 3]%Z] [PIntervalNp; PSet] [s_m1; s_m2] [] (Some 5%Z).
+  mk_pcv [0] [s_g1] [CInterval FPosInf FPosInf; CSet [1; 3]%Z] [PIntervalNp; PSet] [s_m1; s_m2] [] (Some 5%Z).
 
 Example C07_nonvacuous :
   cxt_admissibleb ex_K = true /\ csv_admissibleb 59 s_True s_False ex_K = true
@@ -179,3 +180,11 @@ Example C07_nonvacuous :
   /\ write_cxt ex_K = [66; 10; 10; 50; 10; 50; 10; 10; 103; 49; 10; 103; 32; 50; 10; 1078; 10; 88; 46; 10;
                        88; 46; 10; 46; 46; 10]%N.
 Proof. repeat split; vm_compute; reflexivity. Qed.
+
+(* the sign of an infinite end point survives: the value +inf, i.e. the cell (inf, inf), is written as
+   [Infinity, Infinity] and read back as (inf, inf) -- not as (-inf, inf) *)
+Example C07_infinite_bounds_keep_their_sign :
+  cell_to_json PIntervalNp (CInterval FPosInf FPosInf) = SOk (JDoc (JArr [JFlt FPosInf; JFlt FPosInf]))
+  /\ cell_from_json PIntervalNp (JDoc (JArr [JFlt FPosInf; JFlt FPosInf])) = SOk (CInterval FPosInf FPosInf)
+  /\ cellv_eqb (CInterval FPosInf FPosInf) (CInterval FNegInf FPosInf) = false.
+Proof. repeat split; reflexivity. Qed.
